@@ -960,10 +960,12 @@ pub fn run_c13_strings(tier: &str, sink: &Sink, u: &Universe) -> BOut {
     // wide family: ranges whose printed form is far beyond 256 bytes, from parse and from chains of
     // difference / intersect (depth up to 40), on a dedicated universe
     let wide = wide_family_c13(sink);
+    let longtag = longtag_family_c13(sink);
     let distinct: u64 = seen.iter().map(|m| m.lock().unwrap().len() as u64).sum();
     let mut m = snap(&c);
-    m.insert("distinct_range_values".into(), distinct + wide);
+    m.insert("distinct_range_values".into(), distinct + wide + longtag);
     m.insert("wide_family_values".into(), wide);
+    m.insert("longtag_family_values".into(), longtag);
     BOut { counters: m, samples: vec![json!({"range_text": "^0 ||x"})], n }
 }
 
@@ -1030,6 +1032,74 @@ pub fn wide_family_c13(sink: &Sink) -> u64 {
     n
 }
 
+pub const LONG_TAGS: [&str; 8] = ["a.b.1", "rc.1.5", "a.b.c.d", "0.0.0", "1.2.3.4.5.6", "a.0.b.1", "x.y.z.10", "rc.1.9"];
+
+/// C13 on ranges whose bounds carry tags of 3..6 identifiers (a printer that loses or merges later
+/// identifiers; seeded change C13-6), from parse and from one set operation between two of them. The
+/// universe holds, besides the critical points, every version whose tag is a prefix of a bound's tag.
+pub fn longtag_family_c13(sink: &Sink) -> u64 {
+    let mut texts: Vec<String> = vec![];
+    for t in LONG_TAGS {
+        for op in [">=", ">", "<", "<=", "", "^", "~"] {
+            texts.push(format!("{}1.2.3-{}", op, t));
+        }
+        for t2 in LONG_TAGS {
+            if t < t2 {
+                texts.push(format!("1.2.3-{} - 1.2.4-{}", t, t2));
+                texts.push(format!(">=1.2.3-{} <1.2.3-{}", t, t2));
+                texts.push(format!(">1.2.3-{} <=1.2.3-{}", t, t2));
+                texts.push(format!(">1.2.3-{} <=1.2.3-{}", t2, t));
+                texts.push(format!("<1.2.3-{} || >=2.0.0-{}", t, t2));
+            }
+        }
+    }
+    let mut bvs = vec![ver(1, 2, 3, ""), ver(1, 2, 4, ""), ver(2, 0, 0, "")];
+    for t in LONG_TAGS {
+        let parts: Vec<&str> = t.split('.').collect();
+        for k in 1..=parts.len() {
+            let pre = parts[..k].join(".");
+            for (a, b, c) in [(1, 2, 3), (1, 2, 4), (2, 0, 0)] {
+                bvs.push(ver(a, b, c, &pre));
+            }
+        }
+    }
+    let u = Universe::new(critical_points(&bvs));
+    let mut n = 0u64;
+    let mut check = |r: &Range, parsed: bool, how: &str| {
+        let within = within_bits(&u, &intervals_of(r));
+        let Ok(sat) = real_sat_bits(&u, r) else { return };
+        check_roundtrip(&u, r, &within, &sat, parsed, &mut |clause, w, obs, exp| {
+            sink.report(clause, format!("longtag={}|v={}", how, w), json!({"engine":"B","kind":"range-longtag","how":how}), obs, exp);
+        });
+    };
+    let mut parsed: Vec<(String, Range)> = vec![];
+    for t in &texts {
+        crate::report::beat();
+        if let Ok(Ok(r)) = guarded(|| Range::parse(t)) {
+            n += 1;
+            check(&r, true, &format!("parse:{}", t));
+            parsed.push((t.clone(), r));
+        }
+        // (a text whose two comparators do not meet is rightly refused; which texts parse is C01's business)
+    }
+    // one set operation between every ordered pair of the single-comparator texts
+    let singles: Vec<&(String, Range)> = parsed.iter().filter(|(t, _)| !t.contains(' ')).collect();
+    for (ta, a) in &singles {
+        for (tb, b) in &singles {
+            crate::report::beat();
+            if let Ok(Some(x)) = guarded(|| a.intersect(b)) {
+                n += 1;
+                check(&x, false, &format!("({}) & ({})", ta, tb));
+            }
+            if let Ok(Some(x)) = guarded(|| a.difference(b)) {
+                n += 1;
+                check(&x, false, &format!("({}) minus ({})", ta, tb));
+            }
+        }
+    }
+    n
+}
+
 // ------------------------------------------------------------------ replay ---
 
 pub fn replay(prop: &str, case: &Value, sink: &Sink) {
@@ -1072,6 +1142,9 @@ pub fn replay(prop: &str, case: &Value, sink: &Sink) {
         },
         ("C13", "range-wide") => {
             let _ = wide_family_c13(sink);
+        }
+        ("C13", "range-longtag") => {
+            let _ = longtag_family_c13(sink);
         }
         ("C13", "range-text") => {
             let tier = case["tier"].as_str().unwrap_or("quick");
